@@ -6,7 +6,7 @@
    and a history machine over 2-D label arrays: Pad (explicit shape or scalar Q, three
    fill modes) and Crop in any order.  Labels are the signed coordinates of the
    ORIGINAL samples, so any misplacement by one sample on either axis is visible.      *)
-EXTENDS Integers, Sequences, FiniteSets, TLC, Json
+EXTENDS Integers, Sequences, FiniteSets, TLC, Json, GridLib
 
 CONSTANTS MaxR, MaxC,      \* largest number of rows / columns
           Depth,           \* longest operation history
@@ -25,23 +25,12 @@ VARIABLES shape,   \* <<rows, cols>>
 vars == <<shape, arr, hist, pure, dx, shape0>>
 
 ---------------------------------------------------------------------------
-(* index arithmetic *)
-Origin(n)   == n \div 2                                   \* 0-based index of the zero sample
-FftRange(n) == [i \in 1..n |-> (i - 1) - Origin(n)]       \* signed sample coordinate
-Off(n, m)   == Origin(m) - Origin(n)                      \* pad: >= 0, crop: <= 0 ; ONE rule
-CeilMul(s, q) == ((s * q[1]) + q[2] - 1) \div q[2]        \* ceil(s * Q)
-
-\* natural (unshifted) DFT frequency order in units of 1/(n dx): 0, 1, ..., then negatives
-FftFreq(n)  == [i \in 1..n |-> IF (i - 1) <= (n - 1) \div 2 THEN i - 1 ELSE (i - 1) - n]
-\* shifted order = FftRange
-ShiftedFreq(n) == FftRange(n)
+(* index arithmetic: see GridLib *)
 
 Fill == 0
 Code(y, x) == (y + 50) * 100 + (x + 50)                   \* label of original sample (y, x)
 Lbl(r, c) == [i \in 1..r |-> [j \in 1..c |-> Code(FftRange(r)[i], FftRange(c)[j])]]
 
-Clamp(k, n) == IF k < 1 THEN 1 ELSE IF k > n THEN n ELSE k
-Wrap(k, n)  == ((((k - 1) % n) + n) % n) + 1
 
 \* source index along one axis for destination index k when resizing n -> m
 Src(k, n, m) == k - Off(n, m)
